@@ -179,6 +179,47 @@ def Verifier.verifySeq (v : Verifier) : List (Bytes × Bool × Bool) → Outcome
       | .panic m => .panic m
     | .panic m => .panic m
 
+/-! ### client: `DnsMultiplexer::poll_next` for ONE outstanding signed request -/
+
+/-- what the multiplexer does with one received message, seen from the caller's response stream -/
+inductive Delivery where
+  /-- nothing reaches the caller: the message does not decode as a response
+  (`DnsResponse::from_buffer` fails, debug log only) or carries another id -/
+  | dropped
+  /-- `Ok(response)` -/
+  | ok
+  /-- `Err(..)` (the verifier rejected the message); the request stays active -/
+  | err
+  deriving Repr, DecidableEq
+
+/-- One received message for the active request `reqId` whose `ActiveRequest.verifier` is `v`
+(a signed request always has one: it is created by `finalize` in `send_message` and lives in the
+`ActiveRequest` until the request is dropped; `verify` is called through `&mut`, so a failure leaves
+it in place, unchanged).  `parseOK` = `DnsResponse::from_buffer(buffer).is_ok()`. -/
+def muxStep (v : Verifier) (reqId : Nat) (buf : Bytes) (rdok parseOK : Bool) :
+    Outcome (Verifier × Delivery) :=
+  if parseOK = false then .ok (v, .dropped)
+  else if rd16 buf 0 ≠ some reqId then .ok (v, .dropped)
+  else
+    match v.verify buf rdok parseOK with
+    | .ok v' => .ok (v', .ok)
+    | .err => .ok (v, .err)
+    | .panic m => .panic m
+
+/-- a history of received messages on one request id -/
+def muxRun (v : Verifier) (reqId : Nat) :
+    List (Bytes × Bool × Bool) → Outcome (Verifier × List Delivery)
+  | [] => .ok (v, [])
+  | (buf, rdok, parseOK) :: rest =>
+    match muxStep v reqId buf rdok parseOK with
+    | .ok (v', d) =>
+      match muxRun v' reqId rest with
+      | .ok (vf, ds) => .ok (vf, d :: ds)
+      | .err => .err
+      | .panic m => .panic m
+    | .err => .err
+    | .panic m => .panic m
+
 /-! ### client: which requests are signed (`TSigner::should_sign_message`) -/
 
 /-- the query types of the `qd` questions starting at `pos` (`none` if they cannot be read) -/
